@@ -936,27 +936,17 @@ func check(c *core.Ctx, cs *c12Case) (out *findings, bucket string, nontrivial b
 				cl = "panic"
 			}
 			cl += "-on-compatible-target"
-			if p.name == "MergeRowGroups(schema)" && nAdded > 0 {
-				cl = knownChunkView
-			}
 			out.viol(cl, p.name+": "+core.Trunc(err.Error(), 300)+info)
 			ok = false
 			continue
 		}
 		if cl, what := compareRows(b, got); cl != "" {
-			if p.name == "MergeRowGroups(schema)" {
-				// without sorting columns the merged rows are read from the column-chunk
-				// view of the converted row groups: the known finding below
-				if k := chunkViewClass(cl, nAdded); k != cl {
-					cl, what = k, "(reached through MergeRowGroups without sorting columns) "+what
-				}
-			}
 			out.viol(cl, p.name+": "+what+info)
 			ok = false
-			continue
 		}
-		// correspondence with the model on the in-memory path
-		if pi == 0 && c.HasOracle() && len(b.rows) > 0 {
+		// correspondence with the model on the in-memory path (also when the
+		// predicate failed: the model may be the one of a defective tree)
+		if pi == 0 && c.HasOracle() && len(b.rows) > 0 && len(got) == len(b.rows) {
 			req := []string{"c12.convert", modelMode, srcTok, tgtTok}
 			var impl []string
 			for i := range b.rows {
@@ -966,6 +956,21 @@ func check(c *core.Ctx, cs *c12Case) (out *findings, bucket string, nontrivial b
 			if a := c.Ask(strings.Join(req, " ")); a != strings.Join(impl, " ") {
 				out.mism("corr:C12.convert", core.Trunc(strings.Join(req, " "), 1500), strings.Join(impl, " "), a)
 				ok = false
+			}
+			// Conversion.Column: which source column each target column reads
+			if conv, err := parquet.Convert(b.ts, b.ss); err == nil && !equal {
+				cols := make([]string, len(b.added))
+				for i := range cols {
+					cols[i] = fmt.Sprint(conv.Column(i))
+				}
+				mode := "columns"
+				if modelMode == "pinned" {
+					mode = "pinned"
+				}
+				if a := c.Ask("c12.plan " + mode + " " + srcTok + " " + tgtTok); a != strings.Join(cols, ",") {
+					out.mism("corr:C12.column", srcTok+" "+tgtTok, strings.Join(cols, ","), a)
+					ok = false
+				}
 			}
 		}
 	}
@@ -1104,7 +1109,7 @@ func run(c *core.Ctx) {
 		c.Note("model selected by C12_MODEL=%s", modelMode)
 	}
 	corpus(c)
-	n := c.N(500, 6000)
+	n := c.N(2500, 20000)
 	var vm []string
 	for i := 0; i < n; i++ {
 		seed := c.Seed*1000003 + int64(i)
@@ -1129,7 +1134,7 @@ func run(c *core.Ctx) {
 			}
 		}
 		runCase(c, cs, i < 3)
-		if i%9 == 0 && len(vm) < 40 && cs.Kind == "compat" {
+		if i%9 == 0 && len(vm) < 60 && cs.Kind == "compat" {
 			if s := vmCase(&cs); s != "" {
 				vm = append(vm, s)
 			}
@@ -1325,7 +1330,7 @@ func genIn(rng *rand.Rand) tIn {
 func projInB(in tIn) tInB { return tInB{Z: in.Z, X: in.X} }
 
 func typed(c *core.Ctx) {
-	n := c.N(12, 120)
+	n := c.N(24, 200)
 	for i := 0; i < n; i++ {
 		rng := rand.New(rand.NewSource(c.Seed*31 + int64(i)))
 		nr := []int{1, 2, 7, 40}[i%4]
